@@ -1016,3 +1016,148 @@ func famSanitise(r *vh.Run) {
 		}
 	}
 }
+
+// ---------- (j) kinds of pre-existing targets: absent, regular file, dangling symlink, live symlink, directory ----------
+
+var targetKinds = []string{"absent", "regular", "dangling-symlink", "live-symlink", "directory"}
+
+// makeTarget creates a pre-existing entry of the given kind at path p (elsewhere = a directory outside the tree).
+func makeTarget(kind, p, elsewhere string, tok []byte) {
+	switch kind {
+	case "regular":
+		wfile(p, tok, 0o644)
+	case "dangling-symlink":
+		must(os.Symlink(filepath.Join(elsewhere, "missing-"+filepath.Base(p)), p))
+	case "live-symlink":
+		live := filepath.Join(elsewhere, "live-"+filepath.Base(p))
+		wfile(live, tok, 0o644)
+		must(os.Symlink(live, p))
+	case "directory":
+		must(os.Mkdir(p, 0o755))
+		wfile(filepath.Join(p, "inner"), tok, 0o644)
+	}
+}
+
+func famTargetKinds(r *vh.Run) {
+	// the probe of the production operation tables must see an entry that is a dangling symbolic link (lstat flavour)
+	{
+		base := newBase()
+		link := filepath.Join(base, "1", "dangling.gob")
+		must(os.Symlink(filepath.Join(base, "nowhere"), link))
+		probes := map[string]func(string) (os.FileInfo, error){
+			"api.defaultFontInstallFileOperations.lstat":        api.VerifDefaultTxOps().Lstat,
+			"api.defaultCheatSheetFileOperations.lstat":         api.VerifDefaultCheatSheetOps().Lstat,
+			"font.defaultCollectionInstallFileOperations.lstat": font.VerifDefaultCollectionOps().Lstat,
+		}
+		for name, probe := range probes {
+			if _, err := probe(link); err != nil {
+				r.OracleFail("c06:default-operations:target-probe-follows-symlinks", map[string]any{"table": name, "target": "dangling symbolic link"},
+					fmt.Sprintf("%s does not see a pre-existing target that is a dangling symbolic link (%v): it will be replaced without a backup", name, err))
+			} else {
+				r.OracleOK()
+			}
+		}
+	}
+	for _, kind := range targetKinds {
+		// (1) api.installFonts with the production transaction table; the post-commit reload fails (or not)
+		for _, reloadOK := range []bool{false, true} {
+			base := newBase()
+			F := filepath.Join(base, "1")
+			out := filepath.Join(base, "elsewhere")
+			must(os.Mkdir(out, 0o755))
+			in := filepath.Join(base, "in.ttf")
+			wfile(in, patchedRoboto(fontName(0x10)), 0o644)
+			wfile(filepath.Join(F, fontName(0x3f)+".gob"), []byte{0xee}, 0o644)
+			makeTarget(kind, filepath.Join(F, fontName(0x10)+".gob"), out, oldTok(0x10))
+			rc := newRec(base)
+			rc.canon = gobCanon(rc)
+			before := rc.snapshot()
+			var warns []error
+			err := api.VerifInstallFonts([]string{in}, api.VerifFontAPIOps{UserFontDir: F,
+				ReloadUserFonts: func() error {
+					if reloadOK {
+						return nil
+					}
+					return errors.New("reload failed: another representation in the directory is corrupt")
+				},
+				Tx: api.VerifDefaultTxOps(), ReportCleanupWarning: func(e error) { warns = append(warns, e) }})
+			after := rc.snapshot()
+			for p := range globTemps(F) {
+				rc.tdirs[p] = len(rc.tdirs) + 1
+			}
+			causes := 0
+			if !reloadOK {
+				causes = 1
+			}
+			oracle(r, outcome{fam: "installFonts-target-" + kind, input: map[string]any{"target_kind": kind, "reload_ok": reloadOK}, err: err, warns: warns,
+				causes: causes, wrapper: true, before: before, after: after, want: map[string]string{"10": "1a4:c010"}, rec: rc})
+			r.Count("class:target-kind-" + kind)
+		}
+		if kind == "directory" {
+			continue // the commit-only runs below compare the files of the target directory only
+		}
+		// (2) commitCollectionFonts / publishCheatSheets / commitStagedFonts' table: every single fault
+		for _, table := range []string{"coll", "cheat", "api"} {
+			kind, table := kind, table
+			sweep(false, func(f1, f2 int) int {
+				base := newBase()
+				F := filepath.Join(base, "1")
+				S := filepath.Join(F, "2")
+				out := filepath.Join(base, "elsewhere")
+				must(os.Mkdir(S, 0o755))
+				must(os.Mkdir(out, 0o755))
+				ext := ".gob"
+				if table == "cheat" {
+					ext = "_BMP.pdf"
+				}
+				for _, p := range []int{0x10, 0x11} {
+					wfile(filepath.Join(S, nm(p)+ext), newTok(p), 0o644)
+				}
+				makeTarget(kind, filepath.Join(F, nm(0x10)+ext), out, oldTok(0x10))
+				wfile(filepath.Join(F, nm(0x11)+ext), oldTok(0x11), 0o644)
+				rc := newRec(base, f1, f2)
+				before := rc.snapshot()
+				var err error
+				switch table {
+				case "coll":
+					err = font.VerifCommitCollectionFonts(F, S, []font.InstallResult{{PostScriptName: nm(0x10)}, {PostScriptName: nm(0x11)}}, rc.collOps())
+				case "cheat":
+					_, err = api.VerifPublishCheatSheets(F, S, []string{nm(0x10) + ext, nm(0x11) + ext}, rc.txOpsFrom(api.VerifDefaultCheatSheetOps()))
+				default:
+					_, err = api.VerifPublishCheatSheets(F, S, []string{nm(0x10) + ext, nm(0x11) + ext}, rc.txOps())
+				}
+				oracle(r, outcome{fam: "commit-" + table + "-target-" + kind, input: map[string]any{"target_kind": kind, "f1": f1}, err: err, warns: rc.warns,
+					causes: nfaults(f1, f2), before: before, after: rc.snapshot(), want: map[string]string{"10": "1a4:c010", "11": "1a4:c011"}, rec: rc, pubError: table != "coll"})
+				return rc.cnt
+			})
+		}
+		// (3) certificates: production file table under the recorder, every single fault
+		kind := kind
+		sweep(false, func(f1, f2 int) int {
+			base := newBase()
+			C := filepath.Join(base, "1")
+			out := filepath.Join(base, "elsewhere")
+			must(os.Mkdir(out, 0o755))
+			var imps []api.VerifCertImport
+			for _, p := range []int{0x10, 0x11} {
+				imps = append(imps, api.VerifCertImport{InFile: fmt.Sprintf("in%x.pem", p), OutFile: filepath.Join(C, nm(p)+".p7c")})
+			}
+			makeTarget(kind, filepath.Join(C, nm(0x10)+".p7c"), out, oldTok(0x10))
+			rc := newRec(base, f1, f2)
+			save := func(_ []*x509.Certificate, stage string) error {
+				var v int
+				fmt.Sscanf(strings.TrimPrefix(filepath.Base(stage), ".n"), "%x", &v)
+				if rc.step() {
+					return eio("write", stage)
+				}
+				return os.WriteFile(stage, newTok(v), 0o600)
+			}
+			before := rc.snapshot()
+			err := api.VerifPublishCertificateImports(imps, save, rc.fileOps())
+			oracle(r, outcome{fam: "certificates-target-" + kind, input: map[string]any{"target_kind": kind, "f1": f1}, err: err,
+				causes: nfaults(f1, f2), wrapper: true, before: before, after: rc.snapshot(),
+				want: map[string]string{"10": "180:c010", "11": "180:c011"}, rec: rc, pubError: true})
+			return rc.cnt
+		})
+	}
+}
